@@ -25,11 +25,13 @@ type Page struct {
 	Seq   int
 }
 
-// MemWriter collects the files handed to it. FailAt > 0 makes the FailAt-th WriteFile return an error.
+// MemWriter collects the files handed to it. FailAt > 0 makes the FailAt-th WriteFile return an error;
+// with KeepsFailing every later call fails as well (a full disk, a removed output directory).
 type MemWriter struct {
 	mu      sync.Mutex
 	Pages   []Page
 	FailAt  int
+	KeepsFailing bool
 	calls   int
 	AfterFailure int // files handed over after a failure was returned
 	failed  bool
@@ -44,7 +46,7 @@ func (w *MemWriter) WriteFile(f *core.File) (err error) {
 	if w.failed {
 		w.AfterFailure++
 	}
-	if w.FailAt > 0 && n == w.FailAt {
+	if w.FailAt > 0 && (n == w.FailAt || (w.KeepsFailing && n > w.FailAt)) {
 		w.failed = true
 		w.mu.Unlock()
 		return ErrInjected
